@@ -539,6 +539,23 @@ class World:
             if r.bufstate is not None:
                 r.bufstate["changed_after"] = True
             return
+        elif ed[0] == "delete":
+            # the resource is removed outright by an outside party (C17 only: reads afterwards must not re-create it; what
+            # they return is not defined by any property and is not compared)
+            if r.store != "file" or r.disk is None or r.bufstate is not None:
+                raise Skip()
+            try:
+                seams.REAL["remove"](r.ident)
+            except OSError:
+                raise Skip()
+            r.disk, r.exists = None, False
+            r.model = {} if r.kind == "dict" else []
+            for h in self.handles:
+                if h is not None and h.path and self.objs[h.oid].rid == r.rid:
+                    h.state = "dropped"
+            self.stat("outside_delete")
+            self.probe("resource_deleted_outside")
+            return
         elif ed[0] == "corrupt":
             self.outside_write_raw(r, raw=bytes(ed[1], "latin1"))
             r.corrupt = True
